@@ -65,7 +65,7 @@ public:
     uint8_t len;             // length of name[]
     bool flag_rw     : 1;    // can write to this
     bool flag_export : 1;    // ELF will export symbol
-    uint16_t scope;          // Up to 65535 local scopes.  0 = global.
+    uint32_t scope;          // Local scope number (same width as current_scope).  0 = global.
     uint32_t address;        // address for this name
     char name[];             // null terminated name of label:
   };
